@@ -89,3 +89,17 @@ const (
 	VerifRoleSender   = authRoleSender
 	VerifRoleReceiver = authRoleReceive
 )
+
+// VerifClientTurnServers hands a turn_credentials envelope to the real envelope handler of a fresh sender or receiver (no
+// --turn-server of its own) and returns the TURN servers that client would then use for ICE.
+func VerifClientTurnServers(role string, env protocol.Envelope) []string {
+	logger := slog.New(slog.NewTextHandler(io.Discard, nil))
+	if role == "sender" {
+		s := &SnapshotSender{logger: logger}
+		s.handleEnvelope(context.Background(), env)
+		return s.currentTurnServers()
+	}
+	r := &snapshotReceiver{logger: logger}
+	r.handleEnvelope(env)
+	return r.currentTurnServers()
+}
